@@ -378,13 +378,7 @@ def _(c):
     c.only_raises('ManifestInvalidPath', 'ManifestCrossDevice', 'OSError', 'UnsupportedHash')
     c.note('e is a file entry (not IGNORE/TIMESTAMP) by parameter type; callers are checked to respect it')
 
-    def modifies(it, bound):
-        e = bound['e']
-        ctx = it.ctx
-        for f in ('size', 'checksums'):
-            ty = it.engine.field_type(f)
-            ctx.heap[f] = z3.Store(ctx.field_array(f), e.t, ctx.fresh_const('upd!' + f, ty.sort()))
-    c.modifies(modifies)
+    c.modifies(('e', 'size'), ('e', 'checksums'))
 
     def skip_cond(s):
         f = file_facts(s.path)
